@@ -30,6 +30,9 @@ type pipeline struct {
 	cipher enc.Cipher
 	key    string
 	tamper bool // the document is corrupted before Decrypt: alone, this pipeline fails
+	// the source of Encrypt (1) or Decrypt (2) fails mid-stream with its own error: alone, the
+	// pipeline reports that error after releasing at most a prefix (an aborted upload or download)
+	srcFail int
 	out    []byte
 	encErr error
 	decErr error
@@ -59,6 +62,9 @@ func body(s *simrt.Sim, tier string) {
 				n = []int{65535, 65536, 65537}[s.Choose(3, "bigsize")]
 			}
 			p.tamper = r == 0 && n > 0 && s.Choose(4, "tamper") == 0
+			if !p.tamper && r == 0 && n > 0 && s.Choose(4, "srcfail") == 0 {
+				p.srcFail = 1 + s.Choose(2, "srcfail.side")
+			}
 			p.pt = make([]byte, n)
 			for j := range p.pt {
 				p.pt[j] = byte(j*11+p.id*37) & 0x7f // never the marker byte
@@ -79,6 +85,11 @@ func body(s *simrt.Sim, tier string) {
 				src := &simio.Reader{C: s, Data: p.pt, FailAt: -1, MaxChunk: 0}
 				if len(p.pt) < 3000 {
 					src.Palette = []int{64, 500, 4096}
+				}
+				if p.srcFail == 1 {
+					src.FailAt = s.Choose(len(p.pt)+1, "srcfail.at")
+					src.ErrWithData = s.Choose(2, "srcfail.withdata") == 0
+					s.Fault("reader.error")
 				}
 				c := p.cipher
 				er, err := enc.Encrypt(src, enc.EncryptOptions{WrapKeyFn: v.Wrap, Algorithm: enc.KeyAlgorithmAES256KW, KeyName: p.key, Cipher: &c})
@@ -101,6 +112,9 @@ func body(s *simrt.Sim, tier string) {
 						break
 					}
 				}
+				if p.encErr != nil {
+					continue
+				}
 				s.Yield("between")
 				if p.tamper {
 					b := doc.Bytes()
@@ -108,6 +122,12 @@ func body(s *simrt.Sim, tier string) {
 					s.Fault("document.tamper")
 				}
 				dsrc := &simio.Reader{C: s, Data: doc.Bytes(), FailAt: -1, Palette: []int{100, 512, 70000}}
+				if p.srcFail == 2 {
+					// anywhere after the first byte: in the header, at its end, inside or between segments
+					dsrc.FailAt = 1 + s.Choose(doc.Len(), "srcfail.at")
+					dsrc.ErrWithData = s.Choose(2, "srcfail.withdata") == 0
+					s.Fault("reader.error")
+				}
 				dr, err := enc.Decrypt(dsrc, enc.DecryptOptions{UnwrapKeyFn: v.Unwrapper(p.key)})
 				if err != nil {
 					p.decErr = err
@@ -245,6 +265,21 @@ func body(s *simrt.Sim, tier string) {
 			// alone, this pipeline fails (corrupted segment) after releasing at most a prefix
 			if p.encErr != nil || (p.decErr == nil && (p.endErr == nil || p.endErr == io.EOF)) || !bytes.HasPrefix(p.pt, p.out) {
 				s.Fail("pipeline-differs-from-solo", fmt.Sprintf("pipeline %d (%d bytes, corrupted document): alone it fails with a decryption error; run concurrently it gave encErr=%v decErr=%v end=%v and %d bytes", p.id, len(p.pt), p.encErr, p.decErr, p.endErr, len(p.out)))
+			}
+			continue
+		}
+		if p.srcFail != 0 {
+			var got error
+			switch {
+			case p.srcFail == 1:
+				got = p.encErr
+			case p.decErr != nil:
+				got = p.decErr
+			default:
+				got = p.endErr
+			}
+			if got == nil || got == io.EOF || (p.srcFail == 2 && p.encErr != nil) || !bytes.HasPrefix(p.pt, p.out) {
+				s.Fail("pipeline-differs-from-solo", fmt.Sprintf("pipeline %d (%d bytes, source of side %d fails): alone it fails (the source's error, or an invalid-header error when the source fails inside the header) after releasing at most a prefix; run concurrently it gave encErr=%v decErr=%v end=%v and %d bytes", p.id, len(p.pt), p.srcFail, p.encErr, p.decErr, p.endErr, len(p.out)))
 			}
 			continue
 		}
